@@ -42,8 +42,8 @@ UNITS = [
     Unit('ndc.default', 'c20c', 'verif_ndc_default', mode='uf', unwind=10, replace=CALLEES, clause='column-major: default construction establishes the invariant'),
     Unit('ndc.resize', 'c20c', 'verif_ndc_resize', mode='uf', unwind=10, replace=['verif_ndc_mk'] + CALLEES, object_bits=10,
          clause='column-major: accepted resize: invariant (layout strides = products of the leading extents) and shape == argument; refused: whole object unchanged'),
-    # ---- legacy hybrid_ndarray<float,6,2> (inst c20h): bit-precise, constant-trip helper loops unwound
-    Unit('hy.default', 'c20h', 'verif_hy_default', unwind=10, unwind_loops=HYL, clause='hybrid_ndarray: default construction establishes the invariant'),
-    Unit('hy.resize', 'c20h', 'verif_hy_resize', unwind=10, unwind_loops=HYL, clause='hybrid_ndarray: accepted resize: invariant and shape == argument; refused: whole object unchanged'),
-    Unit('hy.resize2', 'c20h', 'verif_hy_resize2', unwind=10, unwind_loops=HYL, clause='hybrid_ndarray: resize(n0,n1) overload'),
+    # ---- legacy hybrid_ndarray<float,6,2> (inst c20h): products uninterpreted (bit-precise 64-bit multiply times out), constant-trip helper loops unwound
+    Unit('hy.default', 'c20h', 'verif_hy_default', mode='uf', unwind=10, unwind_loops=HYL, clause='hybrid_ndarray: default construction establishes the invariant'),
+    Unit('hy.resize', 'c20h', 'verif_hy_resize', mode='uf', unwind=10, unwind_loops=HYL, clause='hybrid_ndarray: accepted resize: invariant and shape == argument; refused: whole object unchanged'),
+    Unit('hy.resize2', 'c20h', 'verif_hy_resize2', mode='uf', unwind=10, unwind_loops=HYL, clause='hybrid_ndarray: resize(n0,n1) overload'),
 ]
